@@ -45,6 +45,10 @@ def generate(rng, n, tier):
             tbl = rng.choice(["t", "u", "v"])
             where = rng.choice([None, [rng.choice(["a", "b"]), rng.choice(["<", ">", "==", "!="]), rng.randint(0, 4)]])
             op = {"tbl": tbl, "arity": ar, "where": where, "distinct": rng.random() < 0.2}
+            if rng.random() < 0.15:
+                # an operand with trailing clauses of its own: still its own text, wrapped iff the dialect asks for it
+                op["tail"] = rng.choice([".orderby(T('%s').a)" % tbl, ".limit(2)", ".limit(0)", ".offset(1)",
+                                         ".orderby(T('%s').a, order=Order.desc).limit(2)" % tbl, "[1:3]"])
             if rng.random() < 0.08:
                 # `SELECT *`: ONE select term as far as the documented arity check is concerned
                 op["star"] = True
@@ -68,7 +72,7 @@ def operand_src(cls, op, wrapkw=""):
         s += ".where(T('%s').%s %s %d)" % (op["tbl"], c, o, v)
     if op["distinct"]:
         s += ".distinct()"
-    return s
+    return s + op.get("tail", "")
 
 
 def build(case):
@@ -195,7 +199,7 @@ def examine(case):
         F("nested-use", "the chain is not parenthesised as a whole when used as %s: %s" % (use, text))
     # --- SQLite: rows of the left-to-right set expression
     if cls == "sqlite" and use == "top" and not (case.get("offset") and case.get("limit") is None) and \
-            not any(o.get("star") for o in case["ops"]):
+            not any(o.get("star") or o.get("tail") for o in case["ops"]):
         try:
             got = db().execute(ctext).fetchall()
         except sqlite3.Error as e:
